@@ -816,6 +816,24 @@ def check_memo(ctx):
                     ok = True
                 elif isinstance(p, ast.Assign) and n in p.targets and isinstance(p.value, ast.Dict) and not p.value.keys:
                     ok = True
+                elif isinstance(p, (ast.Assign, ast.NamedExpr)) and p.value is n and \
+                        isinstance(p.targets[0] if isinstance(p, ast.Assign) else p.target, ast.Name):
+                    # a local alias (`cache = self._cache`) that is itself only subscripted / .get()-ed / tested with `in`, never rebound, stored
+                    # elsewhere, handed on or returned: the same dictionary under a shorter name
+                    al = (p.targets[0] if isinstance(p, ast.Assign) else p.target).id
+                    uses = [y for y in walk_no_nested(fi.node) if isinstance(y, ast.Name) and y.id == al and y is not (p.targets[0] if isinstance(p, ast.Assign) else p.target)]
+                    def fine(y):
+                        q = par.get(y)
+                        if isinstance(y.ctx, ast.Store):
+                            return False
+                        if isinstance(q, ast.Subscript) and q.value is y:
+                            return True
+                        if isinstance(q, ast.Attribute) and q.attr in ('get', 'clear') and isinstance(par.get(q), ast.Call):
+                            return True
+                        if isinstance(q, ast.Compare) and y in q.comparators and all(isinstance(o, (ast.In, ast.NotIn)) for o in q.ops):
+                            return True
+                        return False
+                    ok = all(fine(y) for y in uses)
                 ctx.check('R2.3b', ok, fi.module, fi.qualname, norm(p if p is not None else n, 70),
                           'the memo dictionary is aliased / replaced / selectively edited: wholesale `.clear()` no longer reaches what was '
                           'remembered', n.lineno, sample={'function': fi.key, 'use': norm(p, 60) if p is not None else ''})
@@ -1328,8 +1346,8 @@ def check_memo_keys(ctx):
                       f'`{bad[0] if bad else ""}` is rebound (line {bad[1] if bad else 0}) after the memo key was built from it and before the result is stored '
                       f'under that key: the result computed for the new value is served to later calls that ask with the old one', st.lineno,
                       sample={'function': fi.key, 'key': norm(kd.value, 60), 'depends_on': sorted(deps)})
-    if n < 3:
-        raise AnalysisError(f'only {n} computed memo keys found')
+    if n < 1:
+        raise AnalysisError('no computed memo key found')
 
 
 def run(ctx):
@@ -1347,3 +1365,183 @@ def run(ctx):
     check_unsynced_put(ctx, res)
     check_direct_text_stores(ctx)
     check_memo_keys(ctx)
+    check_memo_key_covers_params(ctx)
+    check_memo_option_reads(ctx)
+
+
+def check_memo_key_covers_params(ctx):
+    """R2.9 - a function that memoises its result in the node memo files it under a key that tells apart every argument the result depends on.
+    A parameter that is read on a path to the memo store (other than to build the key or to resolve its own default) and does not flow into
+    the key makes two different questions share one slot: whichever is asked first is answered to both until the next flush."""
+    ctx.rule('R2.9', 'every parameter read on the way to a memo store flows into the key the result is stored under', 1)
+    n = 0
+    for fi in ctx.repo.all_funcs():
+        if isinstance(fi.node, ast.Lambda):
+            continue
+        ps = [p for p in fi.params() if p not in ('self', 'cls')]
+        stores = []
+        aliases = {'self._cache'} | {norm(x.targets[0]) for x in walk_no_nested(fi.node) if isinstance(x, ast.Assign) and len(x.targets) == 1 and
+                                     isinstance(x.targets[0], ast.Name) and norm(x.value) == 'self._cache'}
+        for x in walk_no_nested(fi.node):
+            for t in _targets(x):
+                if isinstance(t, ast.Subscript) and norm(t.value) in aliases:
+                    stores.append((x, t.slice))
+        if not stores:
+            continue
+        cfg = CFG(fi.node)
+        node_of = {}
+        for nd in cfg.nodes:
+            for y in subnodes(cfg, nd):
+                node_of.setdefault(id(y), nd)
+        binds = {}
+        for x in walk_no_nested(fi.node):
+            if isinstance(x, ast.Assign) and len(x.targets) == 1 and isinstance(x.targets[0], ast.Name):
+                binds.setdefault(x.targets[0].id, []).append(x)
+            elif isinstance(x, ast.NamedExpr):
+                binds.setdefault(x.target.id, []).append(x)
+        for st, key in stores:
+            if id(st) not in node_of:
+                continue
+            # names the key is built from, through the locals that feed it
+            kdeps, work, kstmts = set(), [key], set()
+            while work:
+                e = work.pop()
+                for y in ast.walk(e):
+                    if isinstance(y, ast.Name) and y.id not in kdeps:
+                        kdeps.add(y.id)
+                        for b in binds.get(y.id, []):
+                            if y.id not in ps:
+                                kstmts.add(id(b))
+                                work.append(b.value)
+            sn = node_of[id(st)].id
+            before = {nd.id for nd in cfg.nodes if sn in cfg.reachable(nd.id, lambda n_, lab, s: lab != 'exc')} | {sn}
+            n += 1
+            for p_ in ps:
+                if p_ in kdeps:
+                    continue
+                reads = []
+                for nd in cfg.nodes:
+                    if nd.id not in before:
+                        continue
+                    for y in subnodes(cfg, nd):
+                        if isinstance(y, ast.Name) and y.id == p_ and isinstance(y.ctx, ast.Load):
+                            reads.append((nd, y))
+                # reading a parameter only to resolve its own default (`if p is None: p = ...`) is not a use of its value
+                own = set()
+                for b in binds.get(p_, []):
+                    own.add(id(b))
+                real = []
+                par = None
+                for nd, y in reads:
+                    par = par or parent_map(fi.node)
+                    cur, skip = y, False
+                    while cur in par:
+                        cur = par[cur]
+                        if id(cur) in kstmts:
+                            skip = True
+                        if isinstance(cur, ast.If) and all(isinstance(b, ast.Assign) and id(b) in own for b in cur.body) and not cur.orelse and \
+                                any(z is y for z in ast.walk(cur.test)):
+                            skip = True
+                    if not skip and nd.kind == 'test':
+                        # a test whose one outcome leaves the function only decides *whether* the store is reached, not what is stored
+                        outs = {lab: sn == s_ or sn in cfg.reachable(s_, lambda n_, lab_, s2: lab_ != 'exc') for lab, s_ in nd.succ if lab in ('true', 'false')}
+                        if len(outs) == 2 and not all(outs.values()):
+                            skip = True
+                    if not skip:
+                        real.append(y)
+                ctx.check('R2.9', not real, fi.module, fi.qualname, f'memo key {norm(key, 40)} vs parameter `{p_}`',
+                          f'`{p_}` is read (line {real[0].lineno if real else 0}) before the result is stored under the key `{norm(key, 40)}`, and the key is '
+                          f'not built from it: calls that differ only in `{p_}` share the slot, the answer computed for the first is served to the others '
+                          f'until the node is flushed', st.lineno, sample={'function': fi.key, 'key': norm(key, 60), 'key_depends_on': sorted(kdeps & set(ps))})
+    if n < 2:
+        raise AnalysisError(f'only {n} memo stores found')
+
+
+def check_memo_option_reads(ctx):
+    """R2.10 - a memoised value that is computed from a *default* option (`get_option(name)` with no per-call mapping: the thread's default, or the one
+    an `options()` block set) is filed under a key built from the value that was read.  Filed under anything else - a constant, the unresolved
+    parameter (`None` = "use the default") - it outlives the block / the thread that asked and is served to callers for whom the default is
+    another."""
+    ctx.rule('R2.10', 'a memo value that depends on a default option read is stored under a key built from that read', 1)
+
+    def is_default_read(c):
+        return isinstance(c, ast.Call) and call_name(c) == 'get_option' and len(c.args) == 1 and not c.keywords
+    n = 0
+    for fi in ctx.repo.all_funcs():
+        if isinstance(fi.node, ast.Lambda) or not any(isinstance(x, ast.Attribute) and x.attr == '_cache' for x in walk_no_nested(fi.node)):
+            continue
+        binds = {}
+        for x in walk_no_nested(fi.node):
+            if isinstance(x, ast.Assign):
+                for t in x.targets:
+                    for y in ast.walk(t):
+                        if isinstance(y, ast.Name):
+                            binds.setdefault(y.id, []).append(x.value)
+            elif isinstance(x, ast.NamedExpr):
+                binds.setdefault(x.target.id, []).append(x.value)
+        # containers that live in the memo: self._cache itself and locals bound from / stored into it
+        memo = {'self._cache'}
+        changed = True
+        while changed:
+            changed = False
+            for nm, vals in binds.items():
+                if nm in memo:
+                    continue
+                def takes_out(v):
+                    # the value *is* something kept in the memo: `self._cache[k]`, `self._cache.get(k)`, a memo local itself (also through unpacking)
+                    if isinstance(v, ast.NamedExpr):
+                        return takes_out(v.value)
+                    if isinstance(v, ast.Name):
+                        return v.id in memo
+                    if isinstance(v, ast.Subscript):
+                        return norm(v.value) in memo
+                    if isinstance(v, ast.Call) and isinstance(v.func, ast.Attribute) and v.func.attr == 'get':
+                        return norm(v.func.value) in memo
+                    return False
+                if any(takes_out(v) for v in vals):
+                    memo.add(nm)
+                    changed = True
+            for x in walk_no_nested(fi.node):
+                for t in _targets(x):
+                    if isinstance(t, ast.Subscript) and norm(t.value) in memo:
+                        v = getattr(x, 'value', None)
+                        for y in ast.walk(v) if v is not None else ():
+                            if isinstance(y, ast.Name) and y.id in binds and y.id not in memo and any(isinstance(b, (ast.Dict, ast.List, ast.Set)) or
+                                                                                                      (isinstance(b, ast.Call) and call_name(b) in ('dict', 'list', 'set'))
+                                                                                                      for b in binds[y.id]):
+                                memo.add(y.id)
+                                changed = True
+
+        def slice_of(e):
+            """(names, default reads) the expression depends on, through the locals that feed it"""
+            names, reads, work = set(), [], [e]
+            while work:
+                z = work.pop()
+                for y in ast.walk(z):
+                    if is_default_read(y):
+                        reads.append(y)
+                    elif isinstance(y, ast.Name) and y.id not in names:
+                        names.add(y.id)
+                        # bindings that only take the value back out of the memo (`dedent, lns = cached`) say nothing about how it was computed
+                        work.extend(b for b in binds.get(y.id, []) if not (isinstance(b, ast.Name) and b.id in memo) and
+                                    not any(isinstance(q, ast.Attribute) and q.attr == '_cache' for q in ast.walk(b)))
+            return names, reads
+        for x in walk_no_nested(fi.node):
+            for t in _targets(x):
+                if not (isinstance(t, ast.Subscript) and norm(t.value) in memo and getattr(x, 'value', None) is not None):
+                    continue
+                vnames, vreads = slice_of(x.value)
+                if not vreads:
+                    continue
+                n += 1
+                knames, kreads = slice_of(t.slice)
+                # the option value must reach the key: through a local both depend on that is bound from the read, or the same read in the key
+                carried = {nm for nm in vnames & knames if any(is_default_read(y) for b in binds.get(nm, []) for y in ast.walk(b))}
+                free = [r for r in vreads if not any(any(y is r for y in ast.walk(b)) for nm in carried for b in binds.get(nm, []))
+                        and not any(norm(r) == norm(k) for k in kreads)]
+                ctx.check('R2.10', not free, fi.module, fi.qualname, f'memo value under {norm(t, 50)} reads {norm(free[0]) if free else "the default through the key"}',
+                          f'the value stored under `{norm(t, 50)}` is computed from `{norm(free[0]) if free else ""}` (the default in effect when it was computed) but '
+                          f'the key is not built from what was read: the entry outlives the options() block or the thread whose default it was and is '
+                          f'served to callers with another default until the node is flushed', x.lineno, sample={'function': fi.key, 'key': norm(t.slice, 50)})
+    if n < 1:
+        raise AnalysisError('no memo value that depends on a default option read found (own_lines expected)')
